@@ -101,6 +101,7 @@ SAFE_FAMILIES = [_re.compile(x) for x in (
     r'^core::result::Result::(err|ok|is_err_and|map_or|map_or_else|or|or_else|unwrap_or_else|unwrap_or_default|as_ref|as_mut|iter|copied|cloned|and|inspect|inspect_err)$',
     r'^core::option::Option::(map_or|map_or_else|or|or_else|xor|filter|zip|take|replace|as_ref|as_mut|copied|cloned|unwrap_or_else|and|iter|inspect|is_some_and|is_none_or|ok_or|map|then)$',
     r'^core::bool::<impl bool>::(then_some|then)$',
+    r'^core::vec::Vec::(as_mut_slice|as_slice|len|is_empty|capacity|as_ptr|as_mut_ptr|clear)$',
     r'^core::slice::<impl \[T\]>::(as_ptr|as_mut_ptr|get_mut|first_mut|last_mut|contains|starts_with|ends_with|fill|reverse|iter|is_empty|len|split_first_mut|split_last_mut|as_chunks|as_chunks_mut|as_rchunks)$',
     r'^core::num::<impl [ui](8|16|32|64|128|size)>::(wrapping_\w+|saturating_\w+|checked_\w+|overflowing_\w+|to_[bln]e_bytes|from_[bln]e_bytes|'
     r'leading_zeros|trailing_zeros|count_ones|count_zeros|swap_bytes|rotate_left|rotate_right|min|max|is_power_of_two|abs_diff)$',
@@ -559,6 +560,9 @@ class Discharger:
             return self.d_index(key, a, s)
         if name == 'copy_from_slice':
             return self.d_copy(key, a, s)
+        if name == 'clone_from_slice' and len(s['term']['args']) == 1:
+            # GenericArray::clone_from_slice(src): panics unless src has the array's type-level length
+            return self.d_copy(key, a, s, fixed_dst=ty_len(s['term']['dest_ty']))
         if name == 'split_at_mut':
             whole, idx = a.arg_val(bi, 0), a.arg_val(bi, 1)
             al = self._vec_alloc_summands(a, whole, a.term_point(bi))
@@ -584,7 +588,7 @@ class Discharger:
             if n_dst is not None and g is not None and g == n_dst:
                 return 'D3', 'slice of guarded length %s converted to an array of %s' % (g, n_dst)
             return None
-        if name in ('to_vec', 'from_elem', 'extend_from_slice'):
+        if name in ('to_vec', 'from_elem', 'extend_from_slice', 'with_capacity'):
             return 'T', 'allocation proportional to the input length (+Nt); failure aborts (outside the property)'
         if name == 'assert_failed':
             return self.d_len_assert(key, a, s)
@@ -683,6 +687,14 @@ class Discharger:
                 kb = len_term_bounds(a, facts, lo[3], p)
                 if kb and nb and isinstance(kb[1], int) and kb[1] <= nb[0]:
                     return 'D7', '[len - %d ..] of a buffer of the same type-level length (>= %d for all impls)' % (kb[1], nb[0])
+        # [..k] / [k..] with k = len(base) - j (the subtraction itself is a separate site) or the Some payload of checked_sub
+        for bound in ([hi] if lo is None and hi is not None else []) + ([lo] if hi is None and lo is not None else []):
+            if bound[0] == 'bin' and bound[1] == 'Sub' and bound[2] == ('len', base):
+                return 'D5', 'index len - j <= len (the subtraction is checked at its own site)'
+            from .common import checked_sub_some
+            cs = checked_sub_some(a, facts, bound)
+            if cs is not None and cs[0] == ('len', base):
+                return 'D5', 'index = len.checked_sub(j) on its Some path: <= len'
         # ranges over a Vec allocated as len(x) + k
         bv = a.deref_val(base, p) if base[0] == 'addr' else None
         root = bv
@@ -713,21 +725,30 @@ class Discharger:
                 return total[2], total[3]
         return None
 
-    def d_copy(self, key, a, s):
+    def d_copy(self, key, a, s, fixed_dst=None):
         facts = self.facts
         bi, t = s['bi'], s['term']
         p = a.term_point(bi)
-        dst, src = a.arg_val(bi, 0), a.arg_val(bi, 1)
+        if fixed_dst is not None:
+            dst, src = ('unknown', 'value'), a.arg_val(bi, 0)
+        else:
+            dst, src = a.arg_val(bi, 0), a.arg_val(bi, 1)
         if key in self.append_helpers:
             # buf[..len(x)].copy_from_slice(x)
             if dst[0] == 'addr' and dst[2] and dst[2][-1][0] == 'slice' and dst[2][-1][1] is None and dst[2][-1][2] == ('len', src):
                 return 'D4', 'destination is buf[..src.len()]'
-        n_dst = ref_len(a, facts, dst, p)
-        if n_dst is None:
-            n_dst = operand_len(a, t['args'][0])
-        n_src = ref_len(a, facts, src, p)
-        if n_src is None:
-            n_src = operand_len(a, t['args'][1])
+        if fixed_dst is not None:
+            n_dst = fixed_dst
+            n_src = ref_len(a, facts, src, p)
+            if n_src is None:
+                n_src = operand_len(a, t['args'][0])
+        else:
+            n_dst = ref_len(a, facts, dst, p)
+            if n_dst is None:
+                n_dst = operand_len(a, t['args'][0])
+            n_src = ref_len(a, facts, src, p)
+            if n_src is None:
+                n_src = operand_len(a, t['args'][1])
         if n_dst is not None and n_dst == n_src:
             return 'D3', 'both sides have type-level length %s' % (n_dst,)
         if n_dst is not None and src[0] == 'param':
@@ -739,23 +760,22 @@ class Discharger:
                 own = [im['types']['OutputSize']['raw'] for im in facts.impls if im.get('trait') == 'Serializable' and im['self_ty'] == a.body.impl_of['self_ty']]
                 if g in own or n_dst in own or g == n_dst:
                     return 'D3', 'source length guarded to be Self::OutputSize = destination length'
-        # open(): tag copy from split_at(ct, len - Nt).1
-        if src[0] == 'field' and src[1] == '1' and src[2][0] == 'call' and src[2][1].endswith('::split_at'):
-            idx = src[2][2][1]
-            if idx[0] == 'bin' and idx[1] == 'Sub' and idx[2] == ('len', src[2][2][0]):
+        # open(): tag copy from the tail x[len - Nt ..] of the one split of the input (split_at(..).1 or an index expression)
+        if src[0] == 'addr' and src[2] and src[2][-1][0] == 'slice' and src[2][-1][2] is None and src[2][-1][1] is not None:
+            idx = src[2][-1][1]
+            whole = ('addr', src[1], src[2][:-1], src[3]) if src[2][:-1] else (src[1][1] if src[1][0] == 'pointee' else ('addr', src[1], (), src[3]))
+            k = None
+            if idx[0] == 'bin' and idx[1] == 'Sub' and idx[2] == ('len', whole):
                 k = idx[3]
-                if k[0] == 'call' and k[1] == 'Serializable::size' and k[4]:
-                    raws = [im['types']['OutputSize']['raw'] for im in facts.impls if im.get('trait') == 'Serializable' and im['self_ty'] == k[4][2]]
-                    if raws and n_dst is not None and (n_dst == raws[0] or n_dst == typenum_usize(raws[0])):
-                        return 'D5', 'second half of split_at(len - Nt) has Nt bytes = the tag buffer'
-            from .common import checked_sub_some
-            cs = checked_sub_some(a, facts, idx)
-            if cs is not None and cs[0] == ('len', src[2][2][0]):
-                k = cs[1]
-                if k is not None and k[0] == 'call' and k[1] == 'Serializable::size' and k[4]:
-                    raws = [im['types']['OutputSize']['raw'] for im in facts.impls if im.get('trait') == 'Serializable' and im['self_ty'] == k[4][2]]
-                    if raws and n_dst is not None and (n_dst == raws[0] or n_dst == typenum_usize(raws[0])):
-                        return 'D5', 'second half of split_at(len - Nt) has Nt bytes = the tag buffer'
+            else:
+                from .common import checked_sub_some
+                cs = checked_sub_some(a, facts, idx)
+                if cs is not None and cs[0] == ('len', whole):
+                    k = cs[1]
+            if k is not None and k[0] == 'call' and k[1] == 'Serializable::size' and k[4]:
+                raws = [im['types']['OutputSize']['raw'] for im in facts.impls if im.get('trait') == 'Serializable' and im['self_ty'] == k[4][2]]
+                if raws and n_dst is not None and (n_dst == raws[0] or n_dst == typenum_usize(raws[0])):
+                    return 'D5', 'the tail x[len - Nt ..] has Nt bytes = the tag buffer'
         # seal(): ranges of the vec allocated as len(pt) + Nt
         if dst[0] == 'addr' and dst[2] and dst[2][-1][0] == 'slice':
             lo, hi = dst[2][-1][1], dst[2][-1][2]
